@@ -319,6 +319,8 @@ def run(tier):
     sh = suite.start()       # the repository's own tests run under the compile recorder while the rest of the check works
     specs = corpus.quick_specs() if tier == "quick" else corpus.thorough_specs()
     cases = corpus.generate(rep, specs)
+    if tier == "thorough":
+        cases = corpus.cap(cases, 40000)
     rep.exhaustive = True
     if tier == "quick":
         keep = {"elementwise": 16, "update_at": 16, "get_at": 8, "id": 6, "preserve": 4, "argfind": 4, "reduce": 2}
